@@ -3,6 +3,21 @@
 import json, subprocess
 CHECKS = {
  # id: (category, technique, text, note, design_ref)
+ "C01": ("exploration", "property-based testing + shape-parameter stress in a subprocess sandbox: crash / abort / panic / CPU-budget hang observation at process level, through library, CLI and server",
+         "Generated-input search over bytes x configs (limits <= defaults): DocGen with junk damage, 33 size-parameterised generators for every recursive or scanning mechanism, byte-level mutants and splices of the repository corpus, raw bytes; each case runs in a sandboxed worker on a 2 MiB stack with panic capture, signal capture, an address-space limit and a two-stage CPU budget; a process-level phase drives the real svgdx binary and a live svgdx-server. Exploration: totality over all byte strings can be refuted, not proved, by testing.",
+         "Termination is judged by CPU budget (20 s, then 200 s alone), so polynomial slowness is not flagged; release-profile stack frames (opt-level s) are assumed representative; libFuzzer campaign not part of the registered commands.", "DESIGN.md §6 C01"),
+ "C03": ("exploration", "property-based testing: XML-grammar document generator; round-trip oracle comparing infosets parsed by an independent strict parser",
+         "Generated well-formed namespaced documents (every construct of the XML grammar, svgdx trigger attributes, references, prolog/epilog) and the same subtrees embedded in svgdx documents; oracle: event-list equality of sxml(input) and sxml(output) modulo attribute order and empty-vs-pair.",
+         "Trusts sxml (cross-checked against expat); TAB/LF/CR in attribute values and CR anywhere are outside the generated domain (no normalisation is applied by either parser); open known finding KF-C03-1 (class list re-serialisation) is excluded by exact signature.", "DESIGN.md §6 C03"),
+ "C05": ("exploration", "property-based testing: round trip / fixed point T_c2(T_c1(x)) == T_c1(x) byte for byte over the union of svgdx generators and independently drawn config pairs",
+         "Generated svgdx documents covering every output-producing feature x pairs of configurations; the second transform must succeed and reproduce the first output exactly.",
+         "Only documents rooted at <svg> on which the first transform succeeds count (others skipped and counted).", "DESIGN.md §6 C05"),
+ "C06": ("exploration", "property-based testing: repetition differential (6 in-process repetitions with fresh hash states + fresh processes) with a seed-sensitivity guard",
+         "Generated documents weighted towards hash-order and PRNG exposure (>= 2 numeric-suffix pattern classes, random functions under random seeds, multi-error documents incl. several failing elements on one line); outputs / error texts must be identical across repetitions in one process and across fresh svgdx processes.",
+         "Hidden nondeterminism must be observable through differing hash seeds or processes within the run; stderr Debug text of the CLI is not compared.", "DESIGN.md §6 C06"),
+ "C07": ("exploration", "stateful property-based testing: generated request histories over 7 front-ends executed sequentially and in concurrent batches against a fresh-process reference; fault part with pre-existing output files; same-file spellings",
+         "Histories of (front-end, document, config) requests against the library, the svgdx binary (4 I/O modes) and one long-lived svgdx-server, compared with a reference transform in a fresh process; failing requests must leave a pre-existing output file byte-identical; output==input spellings (./, absolute, d/../, symlink, hard link) must be refused.",
+         "Interleavings are sampled, not enumerated (the harness does not own the tokio/OS scheduler); --watch is not exercised; the server's documented 400 for empty output is not compared.", "DESIGN.md §6 C07"),
  "C02": ("exploration", "property-based testing: hostile-string injection at every value position; oracle = independent strict XML parser (sxml, cross-checked against expat)",
          "Generated-input search: every successful transform's output must be accepted by an independent strict XML 1.0 parser and have a proper <svg> root. Exploration is the right level: the property quantifies over all inputs and configurations, so it can be refuted by one input but never proved by testing.",
          "Trusts sxml (harness parser; differentially tested against Python expat in setup) and the generators' coverage of value positions; inputs on which the transform fails are outside the property.", "DESIGN.md §6 C02"),
